@@ -207,12 +207,105 @@ pub fn run_c31(ctx: &Ctx) -> Report {
         }
     }
     rep.absorb(acc);
+    // footprint family: K allocation-heavy inner guards in sequence, bare or inside an outer guard. Every guard
+    // must give its allocations back when IT exits, so the smallest heap limit / atom headroom / pair headroom under
+    // which the program succeeds must not grow with K (beyond what the enclosing program itself keeps).
+    let mut acc = Acc::default();
+    for model in [ClvmFlags::empty(), ClvmFlags::NEW_COST_MODEL] {
+        let guard_cost = if model.contains(ClvmFlags::NEW_COST_MODEL) { 500 } else { 140 };
+        let big = atom(&crate::domains::big_atom(1000));
+        // inner body: allocates 2000 heap bytes, 3 atoms and 2 pairs, result discarded by the guard
+        let body = list(&[atom(&[4]), list(&[atom(&[14]), quote(big.clone()), quote(big.clone())]), list(&[atom(&[4]), quote(atom(&[1])), list(&[atom(&[11]), quote(atom(b"x"))])])]);
+        let c_body = standalone_cost(&body, &nil(), model).expect("footprint body runs") + guard_cost;
+        let inner = list(&[atom(&[36]), quote(crate::tree::int_atom(c_body as i128)), quote(nil()), quote(body.clone()), quote(nil())]);
+        // headroom of the bare sequence with the guards hidden: what the enclosing program itself keeps
+        let mut hidden_bare: Vec<[usize; 3]> = vec![];
+        for outer in [false, true] {
+            let mut need: Vec<(usize, [usize; 6])> = vec![];
+            for k in [1usize, 2, 3, 5] {
+                // (c G (c G ... ())) with K copies of the inner guard
+                let mut seq = quote(nil());
+                for _ in 0..k {
+                    seq = list(&[atom(&[4]), inner.clone(), seq]);
+                }
+                let prog = if outer {
+                    let c = standalone_cost(&seq, &nil(), model).expect("sequence runs") + guard_cost;
+                    list(&[atom(&[36]), quote(crate::tree::int_atom(c as i128)), quote(nil()), quote(seq), quote(nil())])
+                } else {
+                    seq
+                };
+                let unconstrained = with_loaded(&prog, &nil(), Enc::Inline, |l| l.run_flags(model, 0));
+                if !unconstrained.ok {
+                    acc.violation(format!("footprint k={k} outer={outer} model={:#x}", model.bits()), format!("footprint program does not run: {}", unconstrained.brief()));
+                    continue;
+                }
+                let (a0, p0, h0) = with_loaded(&prog, &nil(), Enc::Inline, |l| (l.a.atom_count(), l.a.pair_count(), l.a.heap_size()));
+                // smallest headroom that succeeds, for each of the three caps (monotone => binary search),
+                // on the aware dialect and on the dialect that hides the guards (whose guards allocate nothing)
+                let mut mins = [0usize; 6];
+                for (wi, (which, hidden)) in [("heap", false), ("atoms", false), ("pairs", false), ("heap", true), ("atoms", true), ("pairs", true)].iter().enumerate() {
+                    let (mut lo, mut hi) = (0usize, 20000usize);
+                    while lo < hi {
+                        let mid = (lo + hi) / 2;
+                        let ok = std::panic::catch_unwind(std::panic::AssertUnwindSafe(|| {
+                            if *which == "heap" {
+                                with_loaded_limit(&prog, &nil(), Enc::Inline, h0 + mid, |l| if *hidden { l.run(&HideExt::new(model), 0).ok } else { l.run_flags(model, 0).ok })
+                            } else {
+                                with_loaded(&prog, &nil(), Enc::Inline, |l| {
+                                    let cap = 62_500_000usize;
+                                    if *which == "atoms" {
+                                        let _ = l.a.add_ghost_atom(cap - a0 - mid);
+                                    } else {
+                                        let _ = l.a.add_ghost_pair(cap - p0 - mid);
+                                    }
+                                    if *hidden {
+                                        run_raw(l.a, &HideExt::new(model), l.p, l.e, 0).ok
+                                    } else {
+                                        run_raw(l.a, &ChiaDialect::new(model), l.p, l.e, 0).ok
+                                    }
+                                })
+                            }
+                        })).unwrap_or(false);
+                        acc.inc("runs");
+                        if ok { hi = mid } else { lo = mid + 1 }
+                    }
+                    mins[wi] = lo;
+                }
+                if !outer {
+                    hidden_bare.push([mins[3], mins[4], mins[5]]);
+                } else {
+                    // inside an outer guard the hidden run skips the whole body; the baseline is the bare sequence
+                    let hb = hidden_bare[need.len()];
+                    mins[3] = hb[0];
+                    mins[4] = hb[1];
+                    mins[5] = hb[2];
+                }
+                need.push((k, mins));
+                acc.inc("footprint_cases");
+            }
+            // what one guard needs on top of the hidden-guard run (K=1) bounds what K guards may need on top of
+            // their hidden-guard run: allocations of a completed guard are given back when it exits
+            if let Some((_, base)) = need.first().cloned() {
+                for (k, m) in &need[1..] {
+                    let canon = format!("footprint of {k} sequential guards (inside an outer guard: {outer}) model={:#x}", model.bits());
+                    for (r, name) in ["heap", "atoms", "pairs"].iter().enumerate() {
+                        let one = base[r].saturating_sub(base[r + 3]);
+                        let many = m[r].saturating_sub(m[r + 3]);
+                        if many > one {
+                            acc.violation(canon.clone(), format!("{name}: {k} guards need {} more headroom than the run with the guards hidden, one guard needs only {one} more - completed guards did not give their allocations back when they exited", many));
+                        }
+                    }
+                }
+            }
+        }
+    }
+    rep.absorb(acc);
     rep.evaluations = rep.acc.get("runs");
     rep.nontrivial = rep.acc.get("guard_runs_completed");
-    rep.states = rep.acc.get("cases") + rep.acc.get("nesting_cases");
+    rep.states = rep.acc.get("cases") + rep.acc.get("nesting_cases") + rep.acc.get("footprint_cases");
     rep.transitions = rep.acc.get("runs");
     rep.traces = rep.acc.get("guard_runs_completed");
-    rep.rule = format!("every program of P5 (guards bare, followed / preceded by allocation, inside GC candidates, two in sequence; inner programs that allocate atoms, pairs, BLS points; failing inner programs; nested guards) x {} flag sets under BOTH cost models: the run on ChiaDialect is compared with the run on a dialect that hides every extension (where a guard is a no-op returning nil for its declared cost): same result (=> the guard yields nil), same atom/pair/heap counts (=> counts restored to their values at guard entry), same cost except for grandfathered extensions under NEW_COST_MODEL; nested guards of depth 1,2,3,19,20,21,22 with and without LIMIT_SOFTFORK (20 succeed, 21 fail with the dedicated error). Non-trivial = runs in which the aware dialect completed (a guard was really entered or rejected consistently).", flagsets.len());
+    rep.rule = format!("every program of P5 (guards bare, followed / preceded by allocation, inside GC candidates, two in sequence; inner programs that allocate atoms, pairs, BLS points; failing inner programs; nested guards) x {} flag sets under BOTH cost models: the run on ChiaDialect is compared with the run on a dialect that hides every extension (where a guard is a no-op returning nil for its declared cost): same result (=> the guard yields nil), same atom/pair/heap counts (=> counts restored to their values at guard entry), same cost except for grandfathered extensions under NEW_COST_MODEL; nested guards of depth 1,2,3,19,20,21,22 with and without LIMIT_SOFTFORK (20 succeed, 21 fail with the dedicated error); footprint family: 1,2,3,5 allocation-heavy guards in sequence, bare and inside an outer guard - the smallest heap limit and atom headroom under which the program succeeds must not depend on the number of completed guards (counts are given back when each guard exits, not later). Non-trivial = runs in which the aware dialect completed (a guard was really entered or rejected consistently).", flagsets.len());
     rep.assumptions.push("counts 'as they were when the guard was entered' are observed as equality of the final counts with the hidden-guard run, whose guard allocates nothing".into());
     rep
 }
